@@ -28,6 +28,7 @@ structure Got where
   masks : List String := []
   complete : Bool := false
   notrun : Bool := false
+  kind : String := "argv"      -- entry-point variant of the probe (C16f): argv | vm | null
 
 def words (l : String) : List String := (l.splitOn " ").filter (fun w => !w.isEmpty)
 
@@ -45,6 +46,7 @@ def gotStep (g : Got) (l : String) : Got :=
   | ["R", "rc", r, _] => { g with rc := parseInt? r }
   | ["R", "end"] => { g with complete := true }
   | ["R", "notrun"] => { g with notrun := true }
+  | ["R", "entrykind", k] => { g with kind := k }
   | _ => g
 
 def contains (s sub : String) : Bool := (s.splitOn sub).length > 1
@@ -125,6 +127,9 @@ def strictArg (a : String) : Bool :=
   | none => (match lookupOpt cliOpts name with | .none => true | _ => false)
 
 def allDigits (s : String) : Bool := !s.isEmpty && s.toList.all isDigit
+
+/-- no quote character, no backslash -/
+def plainWord (s : String) : Bool := !s.toList.any (fun c => c == '"' || c == '\'' || c == '\\')
 
 /-- Monitors only speak about cases that are unambiguous at the level of the property text:
     every argument is `--pika:<full option name>=<value>`, a positional word, or an unknown option. -/
@@ -221,7 +226,8 @@ def monitors (m : Machine) (inp : Input) (g : Got) : List String :=
   -- (7) positional arguments reach the entry function unchanged and in order
   let positional := inp.argv.filter (fun a => !isPrefix "-" a && !isPrefix "@" a)
   let valueLess := inp.argv.any (fun a => isPrefix "--" a && (argLong a).isNone)
-  let m9 := if ok && !valueLess && (g.argv.filter (fun a => !isPrefix "-" a)) != positional then
+  let m9 := if ok && !valueLess && positional.all plainWord && !(g.kind == "vm" && allowUnknown)
+      && (g.argv.filter (fun a => !isPrefix "-" a)) != positional then
       [s!"positional arguments {positional} reached the entry function as {g.argv}"] else []
   -- (8) binding given on the command line is in force: none = no masks, anything else = every worker bound
   let m10 := if ok && count "pika:bind" == 1 then
@@ -230,6 +236,240 @@ def monitors (m : Machine) (inp : Input) (g : Got) : List String :=
       else if v != "none" && g.masks.any (· == "-") then [s!"command line --pika:bind={v} but some workers are not bound"] else []
     else []
   m1 ++ m2 ++ m3 ++ m4 ++ m5 ++ m6 ++ m7 ++ m8 ++ m9 ++ m10
+
+
+/-! ## C16f: the clauses of the property *as stated*, on the input classes the monitors above are silent
+    about (PIKA_COMMANDLINE_OPTIONS present, `pika.cores` / `pika.bind` / `pika.ignore_process_mask` from the
+    environment, malformed numbers from every source, more threads than PUs, `--pika:pu-step` /
+    `--pika:pu-offset` alone, positional arguments with quote characters, entry-point variants).
+    Where the pinned tree deviates, the message has a stable shape naming the input class, so that a
+    `finding:` line of known_findings.txt can match exactly that class and nothing else. -/
+
+/-- tokens of PIKA_COMMANDLINE_OPTIONS (blank separated; quoting there is outside the strict fragment) -/
+def preTokens (s : String) : Option (List String) :=
+  if s.isEmpty then some [] else
+  if s.toList.any (fun c => c == '"' || c == '\\' || c == '\t' || c == '\'') then none else
+  let ts := splitBlank [] s.toList
+  if ts.any (·.isEmpty) then none else some ts
+
+def isHexNum (s : String) : Bool :=
+  match s.toList with
+  | '0' :: 'x' :: r => !r.isEmpty && r.all (fun c => (hexVal c).isSome)
+  | _ => false
+
+/-- rows of the settings table whose value is a number -/
+def numericSetting (s : Setting) : Bool :=
+  s.key == "pika.os_threads" || s.key == "pika.cores" ||
+  ((allDigits s.dflt || isHexNum s.dflt) && s.key != "pika.attach_debugger" && !isPrefix "pika.log." s.key
+    && !isPrefix "pika.commandline." s.key)
+
+/-- signs, blanks, huge numbers: not judged -/
+def oddNumber (v : String) : Bool :=
+  v.toList.any (fun c => c == '-' || c == '+' || c == ' ' || c == '\t') || (allDigits v && v.length > 18)
+
+def wellFormed (s : Setting) (v : String) : Bool :=
+  allDigits v || (isHexNum s.dflt && isHexNum v) ||
+  (s.key == "pika.os_threads" && (v == "all" || v == "cores")) || (s.key == "pika.cores" && v == "all")
+
+def isFlagOpt (o : String) : Bool :=
+  match cliOpts.find? (fun r => r.name == o) with
+  | some r => r.kind == .flag
+  | none => false
+
+def optValues (args : List String) (o : String) : List String :=
+  args.filterMap (fun a =>
+    if isFlagOpt o then (if a == "--" ++ o then some "1" else none)
+    else match argLong a with
+      | some (n, v) => if n == o then some v else none
+      | none => none)
+
+def iniValues (args : List String) (k : String) : List String :=
+  args.filterMap (fun a =>
+    match argLong a with
+    | some (n, v) => if n == "pika:ini" && (isPrefix (k ++ "=") v || isPrefix (k ++ "!=") v) then (splitIni v).map (·.2) else none
+    | none => none)
+
+/-- where a setting is given -/
+structure Sources where
+  cliOpt : List String      -- `--<option>=v` on the command line
+  cliIni : List String      -- `--pika:ini=<key>=v` on the command line
+  preOpt : List String      -- the same two inside PIKA_COMMANDLINE_OPTIONS
+  preIni : List String
+  env : Option String       -- the row's environment variable
+  envEmpty : Bool := false  -- the variable is set but empty: not judged
+
+def sourcesOf (argv pre : List String) (envOf : String → Option String) (s : Setting) : Sources :=
+  { cliOpt := (match s.opt with | some o => optValues argv o | none => []),
+    cliIni := iniValues argv s.key,
+    preOpt := (match s.opt with | some o => optValues pre o | none => []),
+    preIni := iniValues pre s.key,
+    env := (match s.env with
+      | some e => (match envOf e with | some v => if v.isEmpty then none else some v | none => none)
+      | none => none),
+    envEmpty := (match s.env with
+      | some e => envOf e == some ""
+      | none => false) }
+
+/-- The source that must win according to the property text, with its value: command line option >
+    command-line `--pika:ini` > PIKA_COMMANDLINE_OPTIONS (option or `--pika:ini`) > environment variable >
+    built-in default.  `none` where the text fixes no order (same option twice in one place; a
+    PIKA_COMMANDLINE_OPTIONS *option* against a command-line *ini entry*; option and ini entry of one key
+    both inside PIKA_COMMANDLINE_OPTIONS). -/
+def winner (x : Sources) (s : Setting) : Option (String × String) :=
+  match x.cliOpt with
+  | _ :: _ :: _ => none
+  | [v] => some ("the command line", v)
+  | [] =>
+    match x.cliIni with
+    | _ :: _ :: _ => none
+    | [v] => if x.preOpt.isEmpty then some ("--pika:ini", v) else none
+    | [] =>
+      match x.preOpt with
+      | _ :: _ :: _ => none
+      | [v] => if x.preIni.isEmpty then some ("PIKA_COMMANDLINE_OPTIONS", v) else none
+      | [] =>
+        match x.preIni with
+        | _ :: _ :: _ => none
+        | [v] => some ("--pika:ini in PIKA_COMMANDLINE_OPTIONS", v)
+        | [] =>
+          match x.env with
+          | some v => some ("the environment", v)
+          | none => if x.envEmpty then none else some ("the built-in default", s.dflt)
+
+def isWritten (k : String) : Bool := written.any (fun p => p.1 == k)
+
+/-- the configuration entry the running runtime must report for value `v` of row `s` (`none`: not judged) -/
+def expectEntry (m : Machine) (s : Setting) (v : String) (minThreadsGiven : Bool) : Option String :=
+  let full := m.maskPus == m.pus && m.maskCores == m.cores
+  if s.key == "pika.process_mask" || v.isEmpty || (numericSetting s && oddNumber v) then none
+  else if s.key == "pika.os_threads" then
+    (if minThreadsGiven then none
+     else if allDigits v then (if digitsVal v.toList ≥ 1 then some (toString (digitsVal v.toList)) else none)
+     else if v == "cores" && full then some (toString m.cores)
+     else if v == "all" && full then some (toString m.pus) else none)
+  else if s.key == "pika.cores" then
+    (if allDigits v then some (toString (digitsVal v.toList)) else if v == "all" && full then some (toString m.cores) else none)
+  else if s.key == "pika.ignore_process_mask" then (if v == "0" || v == "1" then some v else none)
+  else if numericSetting s then
+    (if !wellFormed s v then none
+     else if isWritten s.key && allDigits v then some (toString (digitsVal v.toList)) else some v)
+  else some v
+
+def monitors2 (m : Machine) (inp : Input) (g : Got) : List String :=
+  let envOf (v : String) := (inp.env.find? (fun p => p.1 == v)).map (·.2)
+  let prepend := (envOf "PIKA_COMMANDLINE_OPTIONS").getD ""
+  let cfgOf (k : String) := (g.cfg.find? (fun p => p.1 == k)).map (·.2)
+  if g.notrun || !g.complete then [] else
+  if !inp.argv.all strictArg then [] else
+  match preTokens prepend with
+  | none => []
+  | some pre =>
+  if !pre.all strictArg then [] else
+  let ok := g.entered && g.error.isNone
+  let errCls := g.error.bind classify
+  let minThreadsGiven := !(iniValues (pre ++ inp.argv) "pika.force_min_os_threads").isEmpty
+  let srcOf (s : Setting) := sourcesOf inp.argv pre envOf s
+  -- rows the first monitors already judge when PIKA_COMMANDLINE_OPTIONS is absent
+  let oldCovers (s : Setting) (x : Sources) (v : String) : Bool :=
+    prepend.isEmpty &&
+    (if !x.cliOpt.isEmpty then s.key != "pika.cores" && s.key != "pika.bind" && s.key != "pika.ignore_process_mask"
+       && !(s.key == "pika.os_threads" && !allDigits v)
+     else s.key != "pika.cores" && s.key != "pika.bind" && s.key != "pika.ignore_process_mask" && s.key != "pika.process_mask"
+       && !(s.key == "pika.os_threads" && !allDigits v))
+  -- (a)+(b) precedence, for every row of the table
+  let p1 := settings.filterMap (fun s =>
+    let x := srcOf s
+    match winner x s with
+    | none => none
+    | some (src, v) =>
+      if !ok || oldCovers s x v || src == "the built-in default" && (s.key == "pika.cores" || s.key == "pika.os_threads" || s.key == "pika.bind") then none else
+      match expectEntry m s v minThreadsGiven, cfgOf s.key with
+      | some want, some got =>
+        if got == want then none
+        else if src == "the command line" && !x.preOpt.isEmpty then
+          some s!"an option given in PIKA_COMMANDLINE_OPTIONS and on the command line: the command line must win but the runtime uses another value ({s.key}='{got}', command line '{v}')"
+        else if src == "--pika:ini" && !x.preIni.isEmpty then
+          let cls := if isWritten s.key then "a key with a start-up handler" else "a plain key"
+          let which := if some got == expectEntry m s (x.preIni.headD "") minThreadsGiven then "the PIKA_COMMANDLINE_OPTIONS value" else "another value"
+          some s!"--pika:ini entry given in PIKA_COMMANDLINE_OPTIONS and on the command line for {cls}: the command-line entry must win but the runtime uses {which} ({s.key}='{got}', command line '{v}')"
+        else if src == "the environment" then
+          some s!"environment variable {s.env.getD ""} is set to '{v}' and neither command line nor ini gives {s.key}, but the runtime uses '{got}'"
+        else some s!"{s.key} is given as '{v}' by {src} (the highest-precedence source present) but the runtime uses '{got}'"
+      | _, _ => none)
+  -- (a) an option in PIKA_COMMANDLINE_OPTIONS and on the command line: start-up must not stop with "more than once"
+  let single (o : String) := !composing o
+  let twiceIn (args : List String) := cliOpts.any (fun r => single r.name && (optValues args r.name).length ≥ 2)
+  let p2 := if errCls == some .multiple && !twiceIn inp.argv && !twiceIn pre then
+      match cliOpts.find? (fun r => single r.name && (optValues inp.argv r.name).length == 1 && (optValues pre r.name).length == 1) with
+      | some r => [s!"an option given in PIKA_COMMANDLINE_OPTIONS and on the command line: the command line must win but start-up stopped: cannot be specified more than once (--{r.name})"]
+      | none => []
+    else []
+  -- (c) a malformed number in the winning source of a numeric row stops start-up
+  let p3 := settings.filterMap (fun s =>
+    let x := srcOf s
+    if !numericSetting s || !g.entered then none else
+    match winner x s with
+    | none => none
+    | some (src, v) =>
+      let oldM7 := prepend.isEmpty && src == "the command line" &&
+        (s.key == "pika.pu_step" || s.key == "pika.pu_offset" || s.key == "pika.os_threads")
+      -- (a value that loses against PIKA_COMMANDLINE_OPTIONS belongs to the precedence classes above)
+      let shadowed := (src == "the command line" && !x.preOpt.isEmpty) || (src == "--pika:ini" && !x.preIni.isEmpty)
+      if v.isEmpty || oddNumber v || wellFormed s v || src == "the built-in default" || oldM7 || shadowed
+          || isFlagOpt (s.opt.getD "") && src == "the command line" then none else
+      let cls := if s.key == "pika.os_threads" then "the thread count" else "a numeric setting other than the thread count"
+      let srcN := if src == "--pika:ini in PIKA_COMMANDLINE_OPTIONS" then "--pika:ini" else src
+      some s!"malformed number from {srcN} for {cls} was ignored ({s.key}='{v}'): the entry function ran")
+  -- (d) the resolved thread count is the number of workers, for every binding mode (or start-up is refused)
+  let p4 := if ok then
+      (match cfgOf "pika.os_threads" with
+       | some t => if allDigits t && digitsVal t.toList > m.pus && g.workers != digitsVal t.toList then
+           [s!"pika.os_threads={t} but {g.workers} workers run (more threads than processing units, bind {(cfgOf "pika.bind").getD "?"})"] else []
+       | none => [])
+    else []
+  -- (e) `--pika:pu-step=N` / `--pika:pu-offset=N` alone, valid value, nothing else configured
+  let pikaArgs := (pre ++ inp.argv).filter (fun a => isPrefix "--pika:" a)
+  let quiet := ["PIKA_BIND", "PIKA_AFFINITY", "PIKA_PU_STEP", "PIKA_PU_OFFSET", "PIKA_THREADS", "PIKA_CORES",
+                "PIKA_IGNORE_PROCESS_MASK", "PIKA_PROCESS_MASK", "PIKA_NUMA_SENSITIVE", "PIKA_SCHEDULER"].all (fun e => (envOf e).isNone)
+  let p5 := match pikaArgs with
+    | [a] =>
+      (match argLong a with
+       | some (o, v) =>
+         let valid := allDigits v && !oddNumber v &&
+           ((o == "pika:pu-step" && digitsVal v.toList ≥ 1 && (digitsVal v.toList < m.pus || m.pus == 1)) ||
+            (o == "pika:pu-offset" && digitsVal v.toList < m.pus))
+         if (o == "pika:pu-step" || o == "pika:pu-offset") && valid && quiet && prepend.isEmpty then
+           (if errCls == some .bindConflict then
+              [s!"command line --{o}={v} alone (valid value, nothing else configured) was refused: the built-in default bind counts as an explicit --pika:bind"]
+            else if g.error.isSome then [s!"command line --{o}={v} alone (valid value, nothing else configured) was refused: {gotSummary g}"]
+            else [])
+         else []
+       | none => [])
+    | _ => []
+  -- (f) positional arguments with quote characters or backslashes; positionals with PIKA_COMMANDLINE_OPTIONS
+  let isPos (a : String) := !isPrefix "-" a && !isPrefix "@" a
+  let positional := (pre ++ inp.argv).filter isPos
+  let valueLess := (pre ++ inp.argv).any (fun a => isPrefix "--" a && (argLong a).isNone && !isFlagOpt (String.ofList (a.toList.drop 2)))
+  let special := !positional.all plainWord
+  let gotPos := g.argv.filter isPos
+  let unknownGiven := (pre ++ inp.argv).any (fun a => isPrefix "-" a && !isPrefix "--pika:" a)
+  let vmUnknown := g.kind == "vm" && (cfgOf "pika.commandline.allow_unknown").getD "0" != "0"
+  let p6 :=
+    if valueLess || vmUnknown then []
+    else if special then
+      (if ok && gotPos != (if g.kind == "null" then inp.argv.filter isPos else positional) then
+         [s!"a positional argument containing a quote character or a backslash reached the entry function changed (entry point {g.kind}): {positional} became {gotPos}"]
+       else if !g.entered && g.error.isNone && g.rc == some (-1) && !unknownGiven
+           && !(pre ++ inp.argv).any (fun a => isPrefix "--pika:" a && (match lookupOpt cliOpts (String.ofList (splitEq (a.toList.drop 2)).1) with | .none => true | _ => false)) then
+         [s!"a positional argument containing a quote character or a backslash stopped start-up (entry point {g.kind}): {positional}"]
+       else [])
+    else if !prepend.isEmpty && ok && g.kind != "null" && gotPos != positional then
+      [s!"positional arguments {positional} (PIKA_COMMANDLINE_OPTIONS first, then the command line) reached the entry function as {g.argv}"]
+    else []
+  -- (g) entry point `null`: the application's own argv is untouched
+  let p7 := if ok && g.kind == "null" && g.argv != inp.argv then
+      [s!"pika::start(nullptr, ...) changed the application's argv: {inp.argv} became {g.argv}"] else []
+  p1 ++ p2 ++ p3 ++ p4 ++ p5 ++ p6 ++ p7
 
 def parseInput (c : Case) : Input × Got :=
   c.lines.foldl (fun (acc : Input × Got) l =>
@@ -242,7 +482,7 @@ def runCase (c : Case) : String :=
   let m : Machine := { pus := c.getNat "pus", cores := c.getNat "cores", maskPus := c.getNat "maskpus",
                        maskCores := c.getNat "maskcores" }
   let (inp, g) := parseInput c
-  let mon := monitors m inp g
+  let mon := monitors m inp g ++ monitors2 m inp g
   let monS := if mon.isEmpty then "monitors ok" else "monitors FAIL: " ++ " | ".intercalate mon
   let gs := gotSummary g
   match resolve m inp with
@@ -254,6 +494,11 @@ def runCase (c : Case) : String :=
     if same && g.complete then s!"case {c.id} accept error:{errName e} ; {monS}"
     else s!"case {c.id} reject 0 [model error:{errName e} ; impl {gs}] ; {monS}"
   | .ok r =>
+    -- C16f entry-point variants: `vm` reads vm["pika:positional"] (not registered when unknown options are
+    -- allowed), `null` has no entry function: the application keeps its own argv
+    let allowUnknown := cfgLookup r.cfg "pika.commandline.allow_unknown" != "0"
+    let r := if g.kind == "null" then { r with argv := inp.argv }
+      else if g.kind == "vm" && allowUnknown then { r with argv := [] } else r
     if g.error.isSome || !g.entered || !g.complete then
       s!"case {c.id} reject 0 [model ok workers={r.workers} policy={r.policy} ; impl {gs}] ; {monS}"
     else
